@@ -604,9 +604,8 @@ Proof.
   change o9 with ([] ++ o9). eapply good_trans; [apply rgood_good, quiet_rgood; exact Q1|].
   destruct ((v_type v =? PREVOTE)%N).
   - (* prevote *)
-    match type of Eb with context [prevotes (cs_votes ?x) (v_round v)] =>
-      match x with s1 => fail 1 | _ => set (s2 := x) in * end end.
-    assert (Q2 : Quiet s1 s2) by (subst s2; quiet_solve).
+    set (s2 := polka_update (v_round v) s1) in *.
+    assert (Q2 : Quiet s1 s2) by (subst s2; unfold polka_update; quiet_solve).
     assert (Hh2 : cs_halted s2 = false) by (destruct Q2 as (_ & _ & _ & _ & Q5); rewrite Q5; exact Hh1).
     change o9 with ([] ++ o9). eapply good_trans; [apply rgood_good, quiet_rgood; exact Q2|].
     destruct ((cs_round s2 <? v_round v) && o_has_any (prevotes (cs_votes s2) (v_round v))).
